@@ -45,6 +45,7 @@ fn main() {
                 2
             }
         },
+        "noop" => 0,
         "list" => {
             for c in allcfgs::all_cfgs(2) {
                 println!("{} bs={} par={} enc_only={} real={}", c.name, c.bs, c.par, c.enc_only, c.real);
@@ -197,6 +198,7 @@ fn cmd_run(args: &[String]) -> i32 {
     result.put("counters", J::Obj(total.counters.iter().map(|(k, v)| (k.clone(), J::i(*v as i128))).collect()));
     result.put("samples", J::Arr(total.samples.clone()));
     result.put("violations_total", J::i(total.violations_total as i128));
+    result.put("violations_by_signature", J::Obj(total.violations_by_sig.iter().map(|(k, v)| (k.clone(), J::i(*v as i128))).collect()));
     result.put("violations", J::Arr(total.violations.iter().map(|v| v.to_json()).collect()));
     result.put("thresholds_unmet", J::Arr(unmet.iter().map(J::s).collect()));
     result.put("watchdog_fired", J::Bool(fired));
